@@ -109,3 +109,4 @@ def _print_case(n, pattern, opts, si, pdg) -> bool:
         return fail("printing altered the stored values")
     return True
 
+
